@@ -55,11 +55,25 @@ broadcast use {num_bigint::of_int_bi, num_bigint::bi_of_int};
 //@ before tail
     proof {
         lemma_pow2_pos(k);
-        broadcast use num_bigint::and_low_mask, num_bigint::or_disjoint;
-        vstd::arithmetic::div_mod::lemma_fundamental_div_mod(bi(path_0), pow2(k) as int);
-        vstd::arithmetic::div_mod::lemma_mod_bound(bi(path_0), pow2(k) as int);
-        vstd::arithmetic::div_mod::lemma_mod_multiples_basic(bi(*path_1_), pow2(k) as int);
+        let pk = pow2(k) as int;
+        let p0 = bi(path_0);
+        let q = bi(*path_1_);
+        assert(bi(mask) == pk - 1);
+        assert(bi(temp_path) == 1);
+        vstd::arithmetic::div_mod::lemma_fundamental_div_mod(p0, pk);
+        vstd::arithmetic::div_mod::lemma_mod_bound(p0, pk);
+        assert(p0 == pk * 1 + p0 % pk);
+        assert(p0 % pk == p0 - pk);
+        vstd::arithmetic::div_mod::lemma_mod_multiples_basic(q, pk);
+        assert(bi(path_1) == q * pk);
+        assert(bi(path_1) % pk == 0);
+        num_bigint::and_low_mask(p0, k);
+        assert(num_bigint::int_and(p0, bi(mask)) == p0 % pk);
+        num_bigint::or_disjoint(bi(path_1), p0 % pk, k);
+        lemma_plen_bounds(p0);
         assert(plen(1) == 0);
+        assert(plen(p0) == k);
+        assert(num_bigint::int_or(bi(path_1), p0 % pk) == q * pk + (p0 - pk));
     }
 //@ end
 }
